@@ -31,6 +31,18 @@ CMD_TEMPLATES = [
 ]
 
 
+def _command(g, prof, quoting, name):
+    cmd = (g.pick(CMD_TEMPLATES) if quoting else "echo {n}").replace("{n}", name)
+    if prof.get("real_probe"):
+        import os
+
+        probe = os.path.join(os.path.dirname(os.path.abspath(__file__)), "probe.sh")
+        # replace the program (first shell word) by the probe script, keep the arguments
+        rest = cmd.strip().split(None, 1)
+        cmd = probe + (" " + rest[1] if len(rest) > 1 else "")
+    return cmd
+
+
 def _walltime_str(minutes):
     h, m = divmod(int(minutes), 60)
     return f"{h}:{m:02d}:00"
@@ -153,6 +165,8 @@ def gen_scenario(ch, prof):
     """prof: dict of profile options (see jv.profiles)."""
     g = Gen(ch)
     sc = {"profile": prof.get("name", "?"), "mode": prof.get("mode", "hpc")}
+    if prof.get("real_probe"):
+        sc["real_probe"] = True
     max_jobs = prof.get("max_jobs", 12)
     if g.flip(0.5):
         n = g.rint(1, min(4, max_jobs))
@@ -230,7 +244,7 @@ def gen_scenario(ch, prof):
         job = {
             "name": names[i],
             "explicit_name": explicit_names,
-            "command": (g.pick(CMD_TEMPLATES) if quoting else "echo {n}").replace("{n}", names[i]),
+            "command": _command(g, prof, quoting, names[i]),
             "blocked_by": [names[b] for b in blocked[i]],
             "int_blockers": (not explicit_names) and g.flip(0.5),
             "rc": rc,
